@@ -173,7 +173,10 @@ def leaves(table, res):
     return out
 
 
-def build_table(table):
+def build_table(table, str_attrs=False):
+    # (str_attrs: the Tcl templates quote attribute values as text; integer-valued attributes are left to the
+    # line-oriented templates, the property being about pins and clocks)
+    sa = (lambda a: {k: (str(v) if isinstance(v, int) else v) for k, v in a.items()}) if str_attrs else (lambda a: a)
     from amaranth.build import Resource, Subsignal, Pins, DiffPairs, Attrs, Clock, Connector
     from amaranth.hdl import Period
     conns = []
@@ -186,7 +189,7 @@ def build_table(table):
             for sub, nd in node[1]:
                 args.append(Subsignal(sub, *mk(nd)))
             if node[2]:
-                args.append(Attrs(**node[2]))
+                args.append(Attrs(**sa(node[2])))
             return args
         if node[0] == "pins":
             _, names, d, inv, conn, clock, attrs = node
@@ -197,7 +200,7 @@ def build_table(table):
         if clock is not None:
             args.append(Clock(Period(MHz=clock)))
         if attrs:
-            args.append(Attrs(**attrs))
+            args.append(Attrs(**sa(attrs)))
         return args
     ress = [Resource(r["name"], r["number"], *mk(r["node"])) for r in table["resources"]]
     return ress, conns
@@ -421,6 +424,27 @@ def run_history(rng, out):
 # ---- build plans ---------------------------------------------------------------------------------
 def make_platform(vendor, ress, conns, default_clk):
     from amaranth.vendor import LatticeICE40Platform, LatticeECP5Platform, GowinPlatform
+    if vendor == "mistral":
+        from amaranth.vendor import AlteraPlatform
+
+        class P(AlteraPlatform):
+            device = "5CSEBA6"
+            package = "U23"
+            speed = "I7"
+            suffix = ""
+            resources = ress
+            connectors = conns
+        return P(toolchain="Mistral"), "top.qsf"
+    if vendor == "oxide":
+        from amaranth.vendor import LatticePlatform
+
+        class P(LatticePlatform):
+            device = "LIFCL-40-9BG400C"
+            package = "BG400"
+            speed = "9"
+            resources = ress
+            connectors = conns
+        return P(toolchain="Oxide"), "top.pdc"
     if vendor == "ice40":
         class P(LatticeICE40Platform):
             device = "iCE40HX8K"
@@ -447,13 +471,68 @@ def make_platform(vendor, ress, conns, default_clk):
     return p, {"ice40": "top.pcf", "ecp5": "top.lpf", "gowin": "top.cst"}[vendor]
 
 
-def parse_constraints(vendor, text):
+TCL_WORD = r'"(?:[^"\\]|\\.)*"'
+
+
+def tcl_unquote(word):
+    """The string a Tcl interpreter hands to the command for one double-quoted word, and the substitutions it
+    would perform on the way (Tcl's dodekalogue, rules 4, 7, 8, 9): `\\c` yields c, a `$` in front of a name
+    character substitutes a variable, a `[` starts a command substitution."""
+    assert len(word) >= 2 and word[0] == '"' and word[-1] == '"'
+    s, res, hazards, i = word[1:-1], [], [], 0
+    while i < len(s):
+        c = s[i]
+        if c == "\\" and i + 1 < len(s):
+            n = s[i + 1]
+            if n in "abfnrtvxuU01234567\n":
+                hazards.append("escape-sequence-\\" + n)
+            res.append(n)
+            i += 2
+            continue
+        if c == "$" and i + 1 < len(s) and (s[i + 1].isalnum() or s[i + 1] in "_{(:"):
+            hazards.append("variable-substitution")
+        if c == "[":
+            hazards.append("command-substitution")
+        res.append(c)
+        i += 1
+    return "".join(res), hazards
+
+
+def parse_constraints(vendor, text, hazards=None):
     locs, freqs, other = [], [], []
+    hazards = [] if hazards is None else hazards
+
+    def unq(word):
+        name, hz = tcl_unquote(word)
+        hazards.extend((h, word) for h in hz)
+        return name
     for ln in text.splitlines():
         ln = ln.strip()
         if not ln or ln.startswith("#") or ln.startswith("//") or ln.startswith("BLOCK"):
             continue
-        if vendor == "ice40":
+        if vendor == "mistral":
+            m = re.fullmatch(r"set_location_assignment -to (%s) PIN_(\S+)" % TCL_WORD, ln)
+            if m:
+                locs.append((unq(m.group(1)), m.group(2)))
+                continue
+            if ln.startswith("set_instance_assignment -to "):
+                continue
+        elif vendor == "oxide":
+            # (pin lines are written in nextpnr's own .pdc dialect, unquoted; clock lines are Tcl-quoted words)
+            m = re.fullmatch(r"ldc_set_location -site \{(\S+)\} \[get_ports (\S+)\]", ln)
+            if m:
+                locs.append((m.group(2), m.group(1)))
+                continue
+            m = re.fullmatch(r"create_clock -name (%s) -period (\S+) \[get_(ports|nets) (%s)\]" % (TCL_WORD, TCL_WORD), ln)
+            if m:
+                nm, target = unq(m.group(1)), unq(m.group(4))
+                if m.group(3) == "ports" and nm != target:
+                    hazards.append(("clock-name-differs-from-its-port", ln))
+                freqs.append((target if m.group(3) == "ports" else "net:" + target, 1e9 / float(m.group(2))))
+                continue
+            if ln.startswith("ldc_set_port -iobuf "):
+                continue
+        elif vendor == "ice40":
             m = re.fullmatch(r"set_io (\S+) (\S+)", ln)
             if m:
                 locs.append((m.group(1), m.group(2)))
@@ -496,7 +575,7 @@ def run_plan(rng, out, vendor):
     from amaranth.lib import io
     table = gen_table(rng, for_plan=True)
     # the plan generator uses disjoint pins, so every request is granted
-    ress, conns = build_table(table)
+    ress, conns = build_table(table, str_attrs=vendor in ("mistral", "oxide"))
     use = [r for k, r in enumerate(table["resources"]) if rng.random() < 0.7 or k in table.get("colliding", ())] or table["resources"][:1]
     p, cfile = make_platform(vendor, ress, conns, None)
     expected = {}      # port bit name -> pin
@@ -565,7 +644,8 @@ def run_plan(rng, out, vendor):
     text = text.decode() if isinstance(text, bytes) else text
     il = plan.files["top.il"]
     il = il.decode() if isinstance(il, bytes) else il
-    locs, freqs, other = parse_constraints(vendor, text)
+    tcl_hazards = []
+    locs, freqs, other = parse_constraints(vendor, text, tcl_hazards)
     ports = top_ports(il)
 
     def bad(mech, **kw):
@@ -620,13 +700,24 @@ def run_plan(rng, out, vendor):
             nm = pname + (f"[{bit}]" if width > 1 else "")
             if nm in expected and nm not in seen:
                 bad("used-port-bit-not-constrained", port=nm, declared=expected[nm])
-    if vendor != "gowin":
+    # a Tcl-quoted word must reach the tool as the literal name: no substitution may happen on the way
+    for (hz, word) in tcl_hazards:
+        bad("tcl-quoted-name-is-substituted:" + hz, word=word)
+    if vendor in ("mistral", "oxide"):
+        out["extra"]["tcl_words_checked"] = out["extra"].get("tcl_words_checked", 0) + \
+            len(re.findall(TCL_WORD, "\n".join(l for l in text.splitlines() if not l.lstrip().startswith("#"))))
+        if any("$" in w for w in re.findall(TCL_WORD, text)):
+            out["hist"]["tcl-word-with-dollar"] = out["hist"].get("tcl-word-with-dollar", 0) + 1
+    if vendor not in ("gowin", "mistral"):
         # the net clock declared inside the sub-module: one line naming it, with its frequency
         net_lines = [ln.strip() for ln in text.splitlines() if "pllclk" in ln]
         ok = False
         for ln in net_lines:
             nums = re.findall(r"[-+]?\d+\.?\d*(?:[eE][-+]?\d+)?", ln.replace("pllclk", ""))
-            ok = ok or any(abs(float(x) * (1e6 if vendor == "ice40" else 1) - 75e6) < 75 for x in nums)
+            if vendor == "oxide":
+                ok = ok or any(float(x) > 0 and abs(1e9 / float(x) - 75e6) < 75 for x in nums)
+            else:
+                ok = ok or any(abs(float(x) * (1e6 if vendor == "ice40" else 1) - 75e6) < 75 for x in nums)
         out["extra"]["net_clock_lines_checked"] = out["extra"].get("net_clock_lines_checked", 0) + 1
         if len(net_lines) != 1 or not ok:
             bad("net-clock-declared-in-a-submodule-missing-or-wrong", lines=net_lines[:3], declared_hz=75e6)
@@ -650,7 +741,7 @@ def run_plan(rng, out, vendor):
 
 def shards(tier, seed):
     n = 640 if tier == "quick" else 64000
-    nplan = 96 if tier == "quick" else 3000
+    nplan = 160 if tier == "quick" else 5000
     return [{"seed": seed, "shard": i, "histories": n // NSHARDS, "plans": nplan // NSHARDS} for i in range(NSHARDS)]
 
 
@@ -662,7 +753,7 @@ def run_shard(spec):
     for _ in range(spec["histories"]):
         run_history(rng, out)
     for k in range(spec["plans"]):
-        run_plan(rng, out, ["ice40", "ecp5", "gowin"][k % 3])
+        run_plan(rng, out, ["ice40", "ecp5", "gowin", "mistral", "oxide"][k % 5])
     if "plan_exceptions" in out["extra"]:
         out["extra"]["plan_exceptions"] = sorted(set(out["extra"]["plan_exceptions"]))[:5]
     out["monitors"] = dict(instrument.COUNTERS)
